@@ -798,6 +798,30 @@ def _prune_failing_kernels(job, wd, stderr, src):
     return removed
 
 
+def _inlined_rlbox_functions(stderr):
+    """the kernels are built at -O1, so nearly all rlbox code is inlined into them and leaves no function of its own in the
+    IR: the inliner's remarks name every rlbox function (defined under <repo>/code/include) whose body became part of a kernel"""
+    import re
+    inc = os.path.join(REPO, "code", "include")
+    names = set()
+    for ln in stderr.split("\n"):
+        if "remark:" in ln and ln.startswith(inc):
+            mm = re.search(r"remark: '([^']+)' inlined into", ln)
+            if mm:
+                names.add(mm.group(1))
+    if not names:
+        return []
+    names = sorted(names)
+    try:
+        p = subprocess.run(["c++filt"], input="\n".join(names) + "\n", capture_output=True, text=True, timeout=60)
+        dem = [x for x in p.stdout.split("\n") if x]
+        if len(dem) == len(names):
+            names = dem
+    except Exception:
+        pass
+    return sorted(set(n[:200] for n in names))
+
+
 def compile_job(job, wd):
     src = os.path.join(wd, job.name + ".cpp")
     with open(src, "w") as f:
@@ -806,9 +830,10 @@ def compile_job(job, wd):
     t0 = time.time()
     job.pruned = []
     for attempt in range(6):
-        cmd = [CXX] + IR_FLAGS + ["-I", wd] + include_flags(job.flags) + [src, "-o", ll]
+        cmd = [CXX] + IR_FLAGS + ["-Rpass=inline", "-I", wd] + include_flags(job.flags) + [src, "-o", ll]
         p = subprocess.run(cmd, capture_output=True, text=True)
         if p.returncode == 0:
+            job.inlined = _inlined_rlbox_functions(p.stderr)
             break
         removed = _prune_failing_kernels(job, wd, p.stderr, src) if attempt < 5 else []
         if not removed:
@@ -845,7 +870,16 @@ def run_job(job):
         res["compile_s"] = round(ct, 2)
         res["pruned"] = getattr(job, "pruned", [])
         m = parse_module(open(ll).read())
-        res["functions"] = sorted(f for f in m.funcs if "rlbox" in f)[:400]
+        outofline = [f for f in m.funcs if "rlbox" in f]
+        try:
+            pp = subprocess.run(["c++filt"], input="\n".join(outofline) + "\n", capture_output=True, text=True, timeout=60)
+            dm = [x for x in pp.stdout.split("\n") if x]
+            if len(dm) == len(outofline):
+                outofline = [x[:200] for x in dm]
+        except Exception:
+            pass
+        # functions of namespace rlbox whose code is executed symbolically: out of line in the IR, or inlined into a kernel
+        res["functions"] = sorted(x for x in set(outofline + list(getattr(job, "inlined", []))) if x.startswith("rlbox::") or " rlbox::" in x[:60])[:1500]
         res["n_functions"] = len(m.funcs)
         native = Native(exe) if exe else None
         for chk in job.checks:
